@@ -70,7 +70,7 @@ _counted_cache: dict = {}
 def _is_counted(filename: str) -> bool:
     r = _counted_cache.get(filename)
     if r is None:
-        r = filename.startswith("<") or filename.startswith(VYXAL_DIR)
+        r = (filename.startswith("<") and not filename.startswith("<frozen")) or filename.startswith(VYXAL_DIR)
         _counted_cache[filename] = r
     return r
 
@@ -301,12 +301,22 @@ class TooLong(Exception):
     pass
 
 
+NORM_NODE_CAP = 300_000
+_NORM_NODES = [0]
+
+
 def norm(v, cap: int = 400, _depth: int = 0):
     """Plain-data denotation of a Vyxal value.  Lists and LazyLists become
     Python lists (lazy ones forced up to `cap` items; longer -> ('prefix', items)),
     exact numbers become Fractions, strings stay strings."""
+    if _depth == 0:
+        _NORM_NODES[0] = 0
+    _NORM_NODES[0] += 1
     if _depth > 40:
         return ("deep",)
+    if _NORM_NODES[0] > NORM_NODE_CAP:
+        # self-referential / exponentially nested values: cut deterministically (same traversal order on both sides of a comparison)
+        return ("toolarge",)
     if isinstance(v, bool):
         return ("bool", v)
     if isinstance(v, int):
@@ -332,7 +342,7 @@ def norm(v, cap: int = 400, _depth: int = 0):
         it = iter(v)
         for x in it:
             items.append(norm(x, cap, _depth + 1))
-            if len(items) > cap:
+            if len(items) > cap or _NORM_NODES[0] > NORM_NODE_CAP:
                 return ("prefix", items)
         return items
     if isinstance(v, types.FunctionType):
